@@ -464,7 +464,7 @@ fn miri_stage(ctx: &mut Ctx) {
             let text = format!("{}{}", String::from_utf8_lossy(&o.stdout), String::from_utf8_lossy(&o.stderr));
             if o.status.success() {
                 ctx.count("miri-histories-clean");
-                ctx.notes.push(format!("miri: {}", text.lines().last().unwrap_or("")));
+                ctx.notes.push(format!("miri: {}", text.lines().find(|l| l.contains("_miri:")).unwrap_or("")));
             } else if text.contains("Undefined Behavior") {
                 let hist = text.lines().filter(|l| l.starts_with("HISTORY")).last().unwrap_or("");
                 let ub = text.lines().find(|l| l.contains("Undefined Behavior")).unwrap_or("");
